@@ -220,3 +220,18 @@ Theorem C10_mode_applied_iff_channel :
   /\ (forall p c rest b, C03.Model.isChannel c = false -> st_doMode (Msg p str_MODE (c :: rest)) b = b).
 Proof. split; [exact doMode_applied|exact doMode_dropped]. Qed.
 Print Assumptions C10_mode_applied_iff_channel.
+
+(* ---- two networks in one process.  The model gives every IrcState its own containers (two bot states are two values);
+        that this is true of the code is checked by the table extractor (IrcState.__init__ has no mutable default argument,
+        Irc.__init__ builds a fresh IrcState) and by the aliasing clause of the harness.  Under it, for any interleaving
+        of two histories of [dom], each bot agrees with ITS server after every step of either network (a shared
+        nicksToHostmasks dict -- seeded change C10_7 -- makes network A report network B's hostmasks). ---- *)
+Theorem C10_two_networks :
+  forall nick0 prefix0 uA hA uB hB uh steps,
+  valid_nick nick0 = true -> valid_uh uA = true -> valid_uh hA = true -> valid_uh uB = true -> valid_uh hB = true ->
+  forallb (fun wa => action_dom (snd wa)) steps = true ->
+  all_agree2 nick0 prefix0 uh (srv0 nick0 uA hA) (reset nick0 prefix0) (srv0 nick0 uB hB) (reset nick0 prefix0) steps = true.
+Proof.
+  intros. apply two_networks; try assumption; try apply Inv_start; try apply skeys_start; assumption.
+Qed.
+Print Assumptions C10_two_networks.
